@@ -7,7 +7,7 @@ pub mod take;
 
 use super::{DeError, Error};
 
-use integer_encoding::{VarInt, VarIntReader};
+use integer_encoding::VarInt;
 
 /// Abstracts reading from slices or any other `impl BufRead` behind the same
 /// interface
@@ -180,7 +180,24 @@ impl<R: std::io::BufRead> Read for ReaderRead<R> {
 		// more general `read_varint` method that reads byte by byte (that's slightly
 		// sub-optimal but also will trigger extremely rarely).
 		match I::decode_var(self.fill_buf().map_err(DeError::io)?) {
-			None => <Self as VarIntReader>::read_varint(self).map_err(DeError::io),
+			None => {
+				// Gather the bytes of the varint one by one, then decode them exactly like the
+				// fast path (and the slice reader) would have, so that the outcome does not
+				// depend on where the buffer refill boundaries fall.
+				let mut buf = [0u8; 10];
+				let mut len = 0;
+				while let Some(byte) = buf.get_mut(len..len + 1) {
+					std::io::Read::read_exact(&mut self.reader, byte).map_err(DeError::io)?;
+					len += 1;
+					if buf[len - 1] & 0x80 == 0 {
+						break;
+					}
+				}
+				match I::decode_var(&buf[..len]) {
+					Some((val, _)) => Ok(val),
+					None => Err(DeError::new("Unterminated varint")),
+				}
+			}
 			Some((val, read)) => {
 				self.consume(read);
 				Ok(val)
